@@ -31,7 +31,7 @@ ASSUMPTIONS = [
     "are pure algebra and checked at 1e-12",
     "eko/ekore anomalous dimensions are the trusted reference of L1 (1e-7)",
 ]
-BUDGET = {"quick": {"examples": 480, "wall": 500, "min_evaluations": 150}, "thorough": {"examples": 10000, "wall": 2400, "min_evaluations": 2500}}
+BUDGET = {"quick": {"examples": 480, "wall": 500, "min_evaluations": 150}, "thorough": {"examples": 40000, "wall": 2400, "min_evaluations": 2500}}
 MANDATORY = {
     t: ["nontrivial", "clause:L1", "clause:L2", "clause:L3", "pto:2", "pto:3", "singlet-content", "intrinsic-rows", "L1:convolved", "L2:several-nf-in-one-run"]
     for t in ("quick", "thorough")
